@@ -182,7 +182,8 @@ class no_cache(object):
             """Report cache statistics"""
             return CacheInfo(stats[HIT], stats[MISS], stats[LOAD], maxsize, len(cache))
 
-        # interface
+        # interface (set after update_wrapper: it copies user_function.__dict__)
+        update_wrapper(wrapper, user_function)
         wrapper.__wrapped__ = user_function
         #XXX: better is handle to key_function=keygen(ignore)(user_function) ?
         wrapper.info = info
@@ -197,7 +198,7 @@ class no_cache(object):
         wrapper.__mask__ = __get_mask
         wrapper.__map__ = __get_keymap
        #wrapper._queue = None  #XXX
-        return update_wrapper(wrapper, user_function)
+        return wrapper
 
     def __get__(self, obj, objtype):
         """support instance methods"""
@@ -362,7 +363,8 @@ class inf_cache(object):
             """Report cache statistics"""
             return CacheInfo(stats[HIT], stats[MISS], stats[LOAD], maxsize, len(cache))
 
-        # interface
+        # interface (set after update_wrapper: it copies user_function.__dict__)
+        update_wrapper(wrapper, user_function)
         wrapper.__wrapped__ = user_function
         #XXX: better is handle to key_function=keygen(ignore)(user_function) ?
         wrapper.info = info
@@ -377,7 +379,7 @@ class inf_cache(object):
         wrapper.__mask__ = __get_mask
         wrapper.__map__ = __get_keymap
        #wrapper._queue = None  #XXX
-        return update_wrapper(wrapper, user_function)
+        return wrapper
 
     def __get__(self, obj, objtype):
         """support instance methods"""
@@ -580,7 +582,8 @@ class lfu_cache(object):
             """Report cache statistics"""
             return CacheInfo(stats[HIT], stats[MISS], stats[LOAD], maxsize, len(cache))
 
-        # interface
+        # interface (set after update_wrapper: it copies user_function.__dict__)
+        update_wrapper(wrapper, user_function)
         wrapper.__wrapped__ = user_function
         #XXX: better is handle to key_function=keygen(ignore)(user_function) ?
         wrapper.info = info
@@ -595,7 +598,7 @@ class lfu_cache(object):
         wrapper.__mask__ = __get_mask
         wrapper.__map__ = __get_keymap
        #wrapper._queue = use_count #XXX
-        return update_wrapper(wrapper, user_function)
+        return wrapper
 
     def __get__(self, obj, objtype):
         """support instance methods"""
@@ -827,7 +830,8 @@ class lru_cache(object):
             """Report cache statistics"""
             return CacheInfo(stats[HIT], stats[MISS], stats[LOAD], maxsize, len(cache))
 
-        # interface
+        # interface (set after update_wrapper: it copies user_function.__dict__)
+        update_wrapper(wrapper, user_function)
         wrapper.__wrapped__ = user_function
         #XXX: better is handle to key_function=keygen(ignore)(user_function) ?
         wrapper.info = info
@@ -842,7 +846,7 @@ class lru_cache(object):
         wrapper.__mask__ = __get_mask
         wrapper.__map__ = __get_keymap
        #wrapper._queue = queue #XXX
-        return update_wrapper(wrapper, user_function)
+        return wrapper
 
     def __get__(self, obj, objtype):
         """support instance methods"""
@@ -1054,7 +1058,8 @@ class mru_cache(object):
             """Report cache statistics"""
             return CacheInfo(stats[HIT], stats[MISS], stats[LOAD], maxsize, len(cache))
 
-        # interface
+        # interface (set after update_wrapper: it copies user_function.__dict__)
+        update_wrapper(wrapper, user_function)
         wrapper.__wrapped__ = user_function
         #XXX: better is handle to key_function=keygen(ignore)(user_function) ?
         wrapper.info = info
@@ -1069,7 +1074,7 @@ class mru_cache(object):
         wrapper.__mask__ = __get_mask
         wrapper.__map__ = __get_keymap
        #wrapper._queue = queue #XXX
-        return update_wrapper(wrapper, user_function)
+        return wrapper
 
     def __get__(self, obj, objtype):
         """support instance methods"""
@@ -1264,7 +1269,8 @@ class rr_cache(object):
             """Report cache statistics"""
             return CacheInfo(stats[HIT], stats[MISS], stats[LOAD], maxsize, len(cache))
 
-        # interface
+        # interface (set after update_wrapper: it copies user_function.__dict__)
+        update_wrapper(wrapper, user_function)
         wrapper.__wrapped__ = user_function
         #XXX: better is handle to key_function=keygen(ignore)(user_function) ?
         wrapper.info = info
@@ -1279,7 +1285,7 @@ class rr_cache(object):
         wrapper.__mask__ = __get_mask
         wrapper.__map__ = __get_keymap
        #wrapper._queue = None  #XXX
-        return update_wrapper(wrapper, user_function)
+        return wrapper
 
     def __get__(self, obj, objtype):
         """support instance methods"""
